@@ -67,6 +67,16 @@ def check_case(ctx, case):
             ctx.violation(what, case, {"table": e["table_name"], "diffs": [(w, short(o, 200), short(x, 200)) for w, o, x in errs[:4]]})
         ctx.obs["columns_compared"] += len(e["columns"])
     ctx.obs["tables_compared"] += len(exp)
+    n = ctx.obs["tables_compared"]
+    if ok and n % 7 == 0:
+        # the columns are reproduced on every call, not only on the first one on an object
+        from vf.run import run_history
+        h = run_history(case["ddl"], None, [{}, {}, {"group_by_type": True}])
+        ctx.evaluated(3)
+        ctx.obs["same_object_histories"] += 1
+        if h[0] != ("ok", r[1]) or h[1] != ("ok", r[1]) or h[2][0] != "ok":
+            ctx.violation("columns_differ_when_run_again", case, {"first": short(h[0], 200), "second": short(h[1], 200), "third": short(h[2], 150)})
+            ok = False
     return ok
 
 
